@@ -36,6 +36,7 @@ type cInstr struct {
 	dst  int // register index of the result, -1 if none
 	ti   tinfo
 	ti2  tinfo
+	tis  []tinfo
 	typ  types.Type
 }
 
@@ -304,6 +305,22 @@ func (e *Engine) compile(fn *ssa.Function) *cFunc {
 				ci.ti2 = scalarInfo(x.Type())
 			case *ssa.Defer:
 				cf.hasDefer = true
+			case *ssa.IndexAddr:
+				ci.ti = scalarInfo(x.Index.Type())
+			case *ssa.Index:
+				ci.ti = scalarInfo(x.Index.Type())
+			case *ssa.Lookup:
+				ci.ti = scalarInfo(x.Index.Type())
+			case *ssa.Slice:
+				ci.tis = make([]tinfo, 4)
+				for k, v := range []ssa.Value{nil, x.Low, x.High, x.Max} {
+					if v != nil {
+						ci.tis[k] = scalarInfo(v.Type())
+					}
+				}
+			case *ssa.MakeSlice:
+				ci.ti = scalarInfo(x.Len.Type())
+				ci.ti2 = scalarInfo(x.Cap.Type())
 			}
 			if ci.code == iPhi {
 				cb.phis = append(cb.phis, ci)
